@@ -8,6 +8,7 @@ pub mod c05;
 pub mod c05w;
 pub mod c06;
 pub mod c06w;
+pub mod c07;
 pub mod c08;
 pub mod c09;
 pub mod c10;
@@ -21,7 +22,7 @@ pub mod c18;
 pub mod c19;
 pub mod c20;
 
-pub const ALL: &[&str] = &["C01", "C02", "C03", "C04", "C05", "C06", "C08", "C09", "C10", "C12", "C13", "C14", "C15", "C16", "C17", "C18", "C19", "C20"];
+pub const ALL: &[&str] = &["C01", "C02", "C03", "C04", "C05", "C06", "C07", "C08", "C09", "C10", "C12", "C13", "C14", "C15", "C16", "C17", "C18", "C19", "C20"];
 
 /// replay: Some(path) -> re-run the stored case (its "part" field selects the part)
 pub fn dispatch(prop: &str, tier: Tier, seed: u64, replay: Option<&str>) -> Option<Vec<PartReport>> {
@@ -34,6 +35,7 @@ pub fn dispatch(prop: &str, tier: Tier, seed: u64, replay: Option<&str>) -> Opti
         "C04" => c04::check(tier, seed, r),
         "C05" => c05::check(tier, seed, r),
         "C06" => c06::check(tier, seed, r),
+        "C07" => c07::check(tier, seed, r),
         "C08" => c08::check(tier, seed, r),
         "C09" => c09::check(tier, seed, r),
         "C10" => c10::check(tier, seed, r),
